@@ -99,7 +99,7 @@ func H_C14_canonical() {
 		if len(t.errors) != 0 || len(t.logs) != 1 {
 			return "", false
 		}
-		got, _, err := getPrevSnapshot("[TestForm"+itoa(nth)+" - 1]", vxrt.Dir()+"/f.snap")
+		got, _, err := refPrev("[TestForm"+itoa(nth)+" - 1]", vxrt.Dir()+"/f.snap")
 		return got, err == nil
 	}
 	sPlain, ok1 := snap(plain)
@@ -174,7 +174,7 @@ func H_C14_invalid() {
 	if api == 0 {
 		c.MatchJSON(t2, in)
 		c.MatchJSON(t2, `{"ok":1}`)
-		_, _, err := getPrevSnapshot("[TestJ2 - 2]", dir+"/f.snap")
+		_, _, err := refPrev("[TestJ2 - 2]", dir+"/f.snap")
 		vxrt.Assert(err == nil, "C14:rejected-call-keeps-its-slot")
 	} else {
 		c.MatchStandaloneJSON(t2, in)
